@@ -106,6 +106,60 @@ func ifacePaths(be string, flags int, obs string) []string {
 	return p
 }
 
+// aliasSpellings are non-canonical spellings of a key. The file-tree storage cleans
+// paths, so there an alias addresses the same record; on every other storage it is a
+// different (free) key.
+var aliasSpellings = []string{"dslash", "dot", "dotdot", "tslash"}
+
+func aliasKey(key, spelling string) string {
+	db, dbKey := record.ParseKey(key)
+	i := strings.LastIndex(dbKey, "/")
+	dir, leaf := dbKey[:i], dbKey[i+1:]
+	switch spelling {
+	case "dslash":
+		dbKey = dir + "//" + leaf
+	case "dot":
+		dbKey = dir + "/./" + leaf
+	case "dotdot":
+		dbKey = "o/../" + dbKey
+	case "tslash":
+		dbKey += "/"
+	}
+	return db + ":" + dbKey
+}
+
+func aliasSame(be string) bool { return be == "fstree" }
+
+// extraIfacePaths: write paths under key aliases (all storages), and for the injected
+// runtime registry: records of exact-key (single-record) providers read by get,
+// parent-prefix query and a query whose prefix IS the key; writes while the
+// provider's lookup fails.
+func extraIfacePaths(be string) []string {
+	var p []string
+	for _, s := range aliasSpellings {
+		p = append(p, "put-alias-"+s, "putnew-alias-"+s)
+	}
+	if be == "runtime" {
+		p = append(p, "xget", "xquery", "xquery-exact", "put-getfault", "putnew-getfault")
+	}
+	return p
+}
+
+func extraAPIPaths(be string) []string {
+	var p []string
+	for _, s := range aliasSpellings {
+		p = append(p, "api-update-alias-"+s, "api-create-alias-"+s)
+	}
+	if be == "runtime" {
+		p = append(p, "api-xget", "api-xquery-exact", "api-update-getfault", "api-create-getfault")
+	}
+	return p
+}
+
+func isExactKeyPath(p string) bool {
+	return strings.HasPrefix(p, "x") || strings.HasPrefix(p, "api-x")
+}
+
 var delayPaths = []string{"get", "insert", "put", "putnew", "delete", "putmany", "put-flush", "put-evict"}
 
 func apiPaths(be string) []string {
@@ -129,12 +183,12 @@ func coordsFor(sp spec) []cell {
 	f := sp.Shard
 	for _, obs := range observers {
 		for _, cache := range []bool{false, true} {
-			for _, p := range ifacePaths(sp.Backend, f, obs) {
+			for _, p := range append(ifacePaths(sp.Backend, f, obs), extraIfacePaths(sp.Backend)...) {
 				out = append(out, cell{Part: "table", Backend: sp.Backend, Shadow: sp.Shadow, F: f, Obs: obs, Cache: cache, Path: p})
 			}
 		}
 	}
-	for _, p := range apiPaths(sp.Backend) {
+	for _, p := range append(apiPaths(sp.Backend), extraAPIPaths(sp.Backend)...) {
 		out = append(out, cell{Part: "table", Backend: sp.Backend, Shadow: sp.Shadow, F: f, Obs: "api", Path: p})
 	}
 	// Non-privileged observers that carry Always* options, on every interface path.
@@ -319,6 +373,19 @@ func (w *world) runCell(c cell) {
 	x.l, x.i = c.priv()
 	x.perm = permitted(x.l, x.i, c.F)
 
+	if isExactKeyPath(c.Path) {
+		// the target and the control record each live in a provider registered on
+		// exactly their key
+		x.prefix = fmt.Sprintf("x/%d/", id)
+		x.key = w.db + ":" + x.prefix + "k"
+		x.ctl = w.db + ":" + x.prefix + "ctl"
+		if err := w.exactKey(x.key); err == nil {
+			err = w.exactKey(x.ctl)
+		} else {
+			w.b.Inconclusive("cell %s: cannot register exact-key provider: %v", c.sig(), err)
+			return
+		}
+	}
 	if c.Path == "put-flush" || c.Path == "put-evict" {
 		x.runLate()
 		if x.decided {
@@ -434,6 +501,9 @@ func (x *exec) pathSig() string { return pathSig(x.pathName(), x.c.Backend) }
 // pathName is the path as it appears in signatures: the real websocket endpoint is
 // a different construction site of the API than CreateDatabaseAPI.
 func (x *exec) pathName() string {
+	if i := strings.Index(x.c.Path, "-alias-"); i > 0 {
+		return x.c.Path[:i+len("-alias")] // one signature whatever the spelling
+	}
 	if x.c.Obs == "ws" {
 		return "ws-" + strings.TrimPrefix(x.c.Path, "api-")
 	}
@@ -442,7 +512,7 @@ func (x *exec) pathName() string {
 
 func pathSig(path, backend string) string {
 	switch path {
-	case "query", "query-where", "api-query", "api-qsub", "ws-query", "ws-qsub", "purge", "sub-push":
+	case "query", "query-where", "api-query", "api-qsub", "ws-query", "ws-qsub", "purge", "sub-push", "xquery", "xquery-exact", "api-xquery-exact":
 		return path + ":" + backend
 	}
 	return path
@@ -655,10 +725,58 @@ func (x *exec) runIface(o *database.Interface) {
 	w := x.w
 	c := x.c
 	pq := prefixQuery(w.db, x.prefix)
-	switch c.Path {
+	path := c.Path
+	if isExactKeyPath(path) {
+		path = path[1:]
+	}
+	switch {
+	case strings.HasPrefix(path, "put-alias-"), strings.HasPrefix(path, "putnew-alias-"):
+		x.runAliasWrite(strings.HasPrefix(path, "putnew"), path[strings.LastIndex(path, "-")+1:], func(r record.Record, isNew bool) error {
+			if isNew {
+				return o.PutNew(r)
+			}
+			return o.Put(r)
+		})
+		return
+	case path == "put-getfault" || path == "putnew-getfault":
+		x.runGetFaultWrite(func(r record.Record) error {
+			if path == "putnew-getfault" {
+				return o.PutNew(r)
+			}
+			return o.Put(r)
+		})
+		return
+	case path == "query-exact":
+		// a query whose prefix is exactly the key; the same kind of query on the
+		// control record proves that such queries list records at all
+		_, dbCtl := record.ParseKey(x.ctl)
+		_, dbKey := record.ParseKey(x.key)
+		ctlSeen := false
+		var lastErr error
+		var found bool
+		for n, dk := range []string{dbCtl, dbKey} {
+			it, err := o.Query(prefixQuery(w.db, dk))
+			if err != nil {
+				x.hand(nil, errText(err))
+				lastErr = err
+				continue
+			}
+			recs, qerr := drainQuery(it, it.Next)
+			seen, cs, tb := x.hand(recs, errText(qerr))
+			lastErr = qerr
+			if n == 0 {
+				ctlSeen = cs
+			} else {
+				found = seen && strings.Contains(string(tb), x.tok)
+			}
+		}
+		x.readOutcome(found, lastErr, true, ctlSeen)
+		return
+	}
+	switch path {
 	case "get", "get2":
 		n := 1
-		if c.Path == "get2" {
+		if path == "get2" {
 			n = 2 // the second get is served from the read cache when there is one
 		}
 		var found bool
@@ -683,7 +801,7 @@ func (x *exec) runIface(o *database.Interface) {
 
 	case "query", "query-where":
 		q := pq
-		if c.Path == "query-where" {
+		if path == "query-where" {
 			// a condition on the confidential payload: matching must not reveal it
 			q = query.New(w.db + ":" + x.prefix).Where(query.Where("Name", query.SameAs, x.tok)).MustBeValid()
 		}
@@ -695,7 +813,7 @@ func (x *exec) runIface(o *database.Interface) {
 		}
 		recs, qerr := drainQuery(it, it.Next)
 		seen, ctlSeen, tb := x.hand(recs, errText(qerr))
-		x.readOutcome(seen && strings.Contains(string(tb), x.tok), qerr, c.Path == "query", ctlSeen)
+		x.readOutcome(seen && strings.Contains(string(tb), x.tok), qerr, path == "query", ctlSeen)
 
 	case "sub-put", "sub-insert", "sub-flag", "sub-delete", "sub-push":
 		sub, err := o.Subscribe(pq)
@@ -889,6 +1007,38 @@ func watchdog(d time.Duration, fn func()) bool {
 	case <-time.After(d):
 		return false
 	}
+}
+
+// runAliasWrite: the observer writes a record under a non-canonical spelling of the
+// target's key. Where the storage resolves the alias to the same record the usual
+// write oracle applies; elsewhere the alias is a free key and only the target's
+// privileged read-back is judged.
+func (x *exec) runAliasWrite(isNew bool, spelling string, write func(r record.Record, isNew bool) error) {
+	ot := x.ownTok(0)
+	err := write(newRec(aliasKey(x.key, spelling), ot, x.c.K), isNew)
+	x.hand(nil, errText(err))
+	if aliasSame(x.c.Backend) {
+		x.writeOutcome(err, true, false, func(a snap) bool { return strings.Contains(a.Data, ot) })
+	} else {
+		x.writeOutcome(err, false, true, nil)
+	}
+}
+
+// runGetFaultWrite: the provider's lookup of the target fails while the observer
+// writes; its Set would work. "Could not check" must not become "free key".
+func (x *exec) runGetFaultWrite(write func(r record.Record) error) {
+	_, dbKey := record.ParseKey(x.key)
+	ot := x.ownTok(0)
+	x.w.prv.setFault(dbKey, true)
+	err := write(newRec(x.key, ot, x.c.K))
+	x.w.prv.setFault(dbKey, false)
+	x.hand(nil, errText(err))
+	if x.perm {
+		// nothing is demanded of a permitted writer while the provider is down
+		x.writeOutcome(err, false, true, nil)
+		return
+	}
+	x.writeOutcome(err, true, false, nil)
 }
 
 func setPayload(r record.Record, tok string) {
